@@ -50,7 +50,7 @@ Definition orc (name : string) (args : list (val F)) : val F :=
     match args with [s; c; VVec x; p] => if is_tok "<self>" s && is_tok "<composite_system>" c && is_tok "<on_para_eq_constraint>" p then VVec (conv_out x) else VErr | _ => VErr end
   else VErr.
 
-Ltac ev := cbv [upd restrict String.eqb Ascii.eqb Bool.eqb andb env0 empty call_ret raise s_if s_print existsb is_bad orb
+Ltac ev := cbv [upd restrict Pos.eqb N_err N_printed N_break N_ret String.eqb Ascii.eqb Bool.eqb andb env0 empty call_ret raise s_if s_print existsb is_bad orb
                 v_add v_sub v_mul v_pow2 v_npsum v_npdot v_lt v_is_none v_is_not_none v_and v_or v_append v_unpack
                 List.length Nat.eqb List.nth app sattr orc is_tok
                 gen__calc_stopping_criterion_birgin_raydan_vectors gen__calc_stopping_criterion_birgin_raydan_vectors__vars
@@ -91,12 +91,12 @@ Theorem gen_is_satisfied_qoperations_equiv : forall (o : string -> list (val F) 
             VNum (br F n (mkst (@vzero F) (@vzero F) p q) (mkst (@vzero F) (@vzero F) p' q'))].
 Proof. intros o Ho self p p' q q' x x' y y' e0.
   unfold gen__is_satisfied_stopping_criterion_birgin_raydan_qoperations, gen__is_satisfied_stopping_criterion_birgin_raydan_qoperations__body.
-  repeat (py_step ltac:(fun t => eval cbv [upd String.eqb Ascii.eqb Bool.eqb andb env0 empty v_is_none v_or v_unpack List.length Nat.eqb List.nth] in t)).
+  repeat (py_step ltac:(fun t => eval lazy [upd Pos.eqb N_err N_printed N_break N_ret String.eqb Ascii.eqb Bool.eqb andb env0 empty v_is_none v_or v_unpack List.length Nat.eqb List.nth] in t)).
   rewrite !Ho.
   pose proof (gen_is_satisfied_vectors_equiv self p p' q q' (VVec x) (VVec x') (VVec y) (VVec y') e0) as Hv.
   rewrite Hv.
-  repeat (py_step ltac:(fun t => eval cbv [upd String.eqb Ascii.eqb Bool.eqb andb env0 empty v_is_none v_or v_unpack List.length Nat.eqb List.nth] in t)).
-  cbv [call_ret upd String.eqb Ascii.eqb Bool.eqb andb env0 empty]. reflexivity. Qed.
+  repeat (py_step ltac:(fun t => eval lazy [upd Pos.eqb N_err N_printed N_break N_ret String.eqb Ascii.eqb Bool.eqb andb env0 empty v_is_none v_or v_unpack List.length Nat.eqb List.nth] in t)).
+  cbv [call_ret upd Pos.eqb N_err N_printed N_break N_ret String.eqb Ascii.eqb Bool.eqb andb env0 empty]. reflexivity. Qed.
 
 (* ---------------------------------------------------------------- shared vocabulary of the two loop equivalences *)
 Definition idv (v : vec) : vec := v.
